@@ -303,3 +303,20 @@ def generate_behaviours(ctx, n, depth=24, seed=None):
         for js in sel:
             f.write(js + "\n")
     return path, len(sel), len(out)
+
+
+def generate_transitions(ctx, cfgs):
+    """TLC enumerates every single-step transition of MastTrans.tla for the given configurations (and checks each against the reference)."""
+    path = os.path.join(ctx.scratch, "transitions.ndjson")
+    total = 0
+    with open(path, "w") as f:
+        for c in cfgs:
+            r = run_tlc(ctx, "MastTrans.tla", c, workers=8, heap=4, timeout=1200, name="trans-" + c.replace(".cfg", ""))
+            if not r["ok"]:
+                raise Undecided("MastTrans.tla %s: %s" % (c, r["error"]))
+            for ln in r["out"].splitlines():
+                m = BEH_RE.match(ln.strip())
+                if m:
+                    f.write(json.loads('"' + m.group(1) + '"') + "\n")
+                    total += 1
+    return path, total
